@@ -94,8 +94,9 @@ theorem attachArr_up (h : Heap) (n v : Id) (hvn : v ≠ n) (hno : ¬ Anc h v n) 
 theorem appendAll_detached : ∀ (vs : List Id) (h : Heap) (n : Nat), StructBut h n → Acyc h → n < h.size → (h.get n).type = .array →
     vs.Nodup → (∀ v ∈ vs, (v : Nat) < h.size ∧ (h.get v).parent = none ∧ ¬ Anc h v n) →
     (h.appendAll n (vs.map (fun c => (none, c)))).2 = .ok () ∧ StructBut (h.appendAll n (vs.map (fun c => (none, c)))).1 n ∧
-    Acyc (h.appendAll n (vs.map (fun c => (none, c)))).1 ∧ (h.appendAll n (vs.map (fun c => (none, c)))).1.size = h.size
-  | [], h, n, hs, ha, _, _, _, _ => ⟨rfl, hs, ha, rfl⟩
+    Acyc (h.appendAll n (vs.map (fun c => (none, c)))).1 ∧ (h.appendAll n (vs.map (fun c => (none, c)))).1.size = h.size ∧
+    ((h.appendAll n (vs.map (fun c => (none, c)))).1.get n).type = (h.get n).type
+  | [], h, n, hs, ha, _, _, _, _ => ⟨rfl, hs, ha, rfl, rfl⟩
   | v :: vs, h, n, hs, ha, hn, harr, hnd, hvs => by
     obtain ⟨hv, hroot, hno⟩ := hvs v (by simp)
     have hvn : v ≠ n := by intro e; exact hno (e ▸ Anc.refl' h _)
@@ -110,7 +111,7 @@ theorem appendAll_detached : ∀ (vs : List Id) (h : Heap) (n : Nat), StructBut 
       rintro ⟨k, hk⟩
       rw [attachArr_up h n v hvn hno] at hk
       exact c ⟨k, hk⟩)
-    exact ⟨ih.1, ih.2.1, ih.2.2.1, by rw [ih.2.2.2, z1]⟩
+    exact ⟨ih.1, ih.2.1, ih.2.2.1, by rw [ih.2.2.2.1, z1], by rw [ih.2.2.2.2, t1]⟩
 
 /-- **AppendArray(values...)** with any number of fresh or detached, pairwise different nodes (none of them the receiver or above it):
 accepted, and the heap afterwards is sound and acyclic -/
@@ -124,7 +125,7 @@ theorem appendArray_many_detached {h : Heap} (hs : Struct h) (ha : Acyc h) (n : 
     obtain ⟨_, _, hno⟩ := hvs c hc
     intro hl
     exact hno ((loop_guard_exact hs.pir ha n hn c).mp hl)
-  obtain ⟨r1, r2, r3, r4⟩ := appendAll_detached vs h n (hs.toBut n) ha hn harr hnd hvs
+  obtain ⟨r1, r2, r3, r4, _⟩ := appendAll_detached vs h n (hs.toBut n) ha hn harr hnd hvs
   unfold Heap.appendArray
   simp only [hia, Bool.not_true, Bool.false_eq_true, if_false, hany]
   generalize h.appendAll n (vs.map (fun c => (none, c))) = res at r1 r2 r3 r4
